@@ -18,6 +18,50 @@ pub enum C10Case {
     Map { kt: Kt, buckets: Buckets, xs: Vec<u64>, ys: Vec<u64> },
     /// byte/string keys: all From forms of the same bytes address one entry
     Bytes { kt: Kt, keys: Vec<Vec<u8>> },
+    /// a whole session on a typed map (mostly the integer key types) in a table of 1-3 buckets:
+    /// every key keeps addressing its own entry through puts, overwrites, deletes and re-puts
+    Hist(History),
+}
+
+fn hist_cfg(tier: Tier, index: u64) -> crate::gen::HistCfg {
+    use crate::gen::*;
+    let mut w = Weights::basic();
+    w.put = 45;
+    w.del = 16;
+    w.get = 22;
+    w.inc = 5;
+    w.iter = 2;
+    w.len = 1;
+    w.reopen = if index % 3 == 0 { 1 } else { 0 };
+    let mut c = HistCfg {
+        kts: if index % 4 == 0 { vec![Kt::Bytes, Kt::String] } else { vec![Kt::U64, Kt::I64, Kt::Vu64] },
+        key: KeyProfile::Short,
+        n_keys: 2..=14,
+        bufs: BufProfile::Plain,
+        allow_lt8: true,
+        max_buckets: if index % 7 == 3 { 4096 } else { 3 },
+        ops: OpsCfg {
+            w,
+            val: ValProfile::Small,
+            n_ops: tier.pick(5..=200, 5..=500),
+            reopen_params: None,
+            reopen_child: false,
+            max_batch: 0,
+            n_maps: 1,
+        },
+        obs: Obs {
+            decode_at_close: true,
+            ..Default::default()
+        },
+        target_pct: 0,
+        prelude: Prelude::None,
+        phases: false,
+        special_keys: index % 4 == 0,
+        default_table: false,
+        big_table: None,
+    };
+    let _ = &mut c;
+    c
 }
 
 fn pair_strategy() -> BoxedStrategy<(u64, u64)> {
@@ -64,6 +108,18 @@ fn bytes_key_strategy() -> BoxedStrategy<Vec<Vec<u8>>> {
             out.dedup();
             out
         })
+        // the order of insertion varies (the empty key, the shortest of every family, is not always first)
+        .prop_flat_map(|out| {
+            let n = out.len().max(1);
+            (Just(out), 0..n)
+        })
+        .prop_map(|(mut out, r)| {
+            out.rotate_left(r);
+            if r % 3 == 2 {
+                out.reverse();
+            }
+            out
+        })
         .boxed()
 }
 
@@ -103,6 +159,9 @@ fn strategy(tier: Tier, index: u64) -> BoxedStrategy<C10Case> {
                 C10Case::Map { kt, buckets: Buckets::BucketsSize(1), xs, ys }
             })
             .boxed();
+    }
+    if index % 5 == 4 {
+        return crate::gen::history_strategy(hist_cfg(tier, index)).prop_map(C10Case::Hist).boxed();
     }
     if index % 50 == 11 {
         return (proptest::sample::select(vec![Kt::Bytes, Kt::String]), long_key_family())
@@ -355,9 +414,11 @@ fn check_bytes(kt: Kt, keys: &[Vec<u8>], w: &WCtx, rep: &mut Report) -> Result<(
                 }
             }};
         }
+        // table size by the family: one bucket (a single chain), three, or sixteen
+        let nb = [16u64, 1, 3, 16][keys.len() % 4];
         match kt {
-            Kt::Bytes => body!(db.db_map_bytes_with_params("t", crate::dbx::to_params(&Params::plain(Buckets::BucketsSize(16)))).map_err(|e| Failure::new("error", None, format!("open: {e}")))?, DbBytes),
-            _ => body!(db.db_map_string_with_params("t", crate::dbx::to_params(&Params::plain(Buckets::BucketsSize(16)))).map_err(|e| Failure::new("error", None, format!("open: {e}")))?, DbString),
+            Kt::Bytes => body!(db.db_map_bytes_with_params("t", crate::dbx::to_params(&Params::plain(Buckets::BucketsSize(nb)))).map_err(|e| Failure::new("error", None, format!("open: {e}")))?, DbBytes),
+            _ => body!(db.db_map_string_with_params("t", crate::dbx::to_params(&Params::plain(Buckets::BucketsSize(nb)))).map_err(|e| Failure::new("error", None, format!("open: {e}")))?, DbString),
         }
         Ok(Report::default())
     });
@@ -388,6 +449,13 @@ fn run_c10(c: &C10Case, w: &WCtx) -> Result<Report, Failure> {
         }
         C10Case::Map { kt, buckets, xs, ys } => check_map(*kt, *buckets, xs, ys, w, &mut rep)?,
         C10Case::Bytes { kt, keys } => check_bytes(*kt, keys, w, &mut rep)?,
+        C10Case::Hist(h) => {
+            let r = run_history(h, w)?;
+            rep.bump("typed_sessions");
+            if r.has("delete_present") && r.has("overwrite") && r.has("insert") {
+                rep.bump("typed_session_with_delete_overwrite_reinsert");
+            }
+        }
     }
     Ok(rep)
 }
@@ -399,7 +467,7 @@ impl Prop for C10 {
         "C10"
     }
     fn rule(&self) -> String {
-        "integer pairs (x, y): x from {2^k, 2^k +- 1, -2^k, 2^(7j) +- 1 (vu64 steps), i64::MIN/MAX, u64::MAX, random, small}, y from {x, x+-1, x ^ bit, x ^ high bit, byteswap(x), low 32 bits of x, independent}; laws for DbU64, DbI64, DbVu64: int -> key -> int round trip (by value and by reference), From<T> == From<&T>, key(x) == key(y) <=> x == y, cmp_u8 == Equal <=> x == y, x == y => equal hash_value, vu64 keys equal the documented encoding (independent encoder); typed maps (tables 1..4096): put(x) then get(y) hits <=> x == y, keys of iter() convert back to exactly the inserted integers; byte/string keys: families of prefixes, embedded NULs, non-UTF-8: every From form of the same bytes addresses the same entry, different bytes never, keys() returns the bytes put. evaluations counts integer pairs + maps + key families. Non-trivial and distinct: a pair whose members differ only above bit 27, or a pair at a vu64 width boundary (digest of the pair); a typed map with a key above bit 27; a key family with a non-UTF-8 key."
+        "integer pairs (x, y): x from {2^k, 2^k +- 1, -2^k, 2^(7j) +- 1 (vu64 steps), i64::MIN/MAX, u64::MAX, random, small}, y from {x, x+-1, x ^ bit, x ^ high bit, byteswap(x), low 32 bits of x, independent}; laws for DbU64, DbI64, DbVu64: int -> key -> int round trip (by value and by reference), From<T> == From<&T>, key(x) == key(y) <=> x == y, cmp_u8 == Equal <=> x == y, x == y => equal hash_value, vu64 keys equal the documented encoding (independent encoder); typed maps (tables 1..4096): put(x) then get(y) hits <=> x == y, keys of iter() convert back to exactly the inserted integers; byte/string keys: families of prefixes, embedded NULs, non-UTF-8: every From form of the same bytes addresses the same entry, different bytes never, keys() returns the bytes put (insertion order rotated, tables of 1 / 3 / 16 buckets); every 5th case a whole session (5-200 calls: put, overwrite, delete, re-put, get, traversal, reopen) on a typed map with 2-14 keys in a table of 1-3 buckets, mostly the integer key types, special byte keys (empty, NULs, prefixes, equal-hash families) otherwise, results vs the model and independent decode at close. evaluations counts integer pairs + maps + key families. Non-trivial and distinct: a pair whose members differ only above bit 27, or a pair at a vu64 width boundary (digest of the pair); a typed map with a key above bit 27; a key family with a non-UTF-8 key; a session with insert, overwrite and delete of present keys."
             .to_string()
     }
     fn n_cases(&self, tier: Tier) -> u64 {
@@ -416,7 +484,7 @@ impl Prop for C10 {
             |c: &C10Case| run_c10(c, w),
             |c, rep| {
                 (
-                    rep.has("map_with_key_above_bit27") || rep.has("non_utf8_key"),
+                    rep.has("map_with_key_above_bit27") || rep.has("non_utf8_key") || rep.has("typed_session_with_delete_overwrite_reinsert"),
                     digest_of(c),
                 )
             },
